@@ -31,6 +31,7 @@ ASSUMPTIONS = [
     "mock providers; reordering/delaying is applied to id-style sides only, as the statement says; path-style sides get duplicates, singleton batches, walks and injections",
     "envelope hazards PATH_REUSE, DIRMOVE_ISOLATED, DIRMOVE_TOMB, XSIDE as for C03/C04",
     "LATE_DUP_PATHSTYLE: a stale second copy of an event (delivered after later events) is generated for id-style sides only; path-style sides get immediate duplicates",
+    "the id/id exception of DIRMOVE_ISOLATED (create inside a folder renamed in the same window) covers new files only here (open finding KF-34: a folder-rename event delivered after the event of a sub-folder made under the new name leaves a stale folder)",
     "WALK_PATHSTYLE_BUSY: a walk replay of a path-style side is generated at quiet points only (open finding KF-32: a walk that overtakes pending rename events of a path-style side leaves a stale copy)",
     "held-back events are always released before quiet is evaluated (an event that is never delivered is outside the statement)",
 ]
@@ -64,9 +65,15 @@ def gen(d, tier):
     mode = d.choice(("imm_dups", "dups", "mixed"))
     cfg["mode"] = mode
     acts, world = gen_history(d, cfg, sides=sides, n_ops=(3, 8) if tier == "quick" else (3, 14), with_base=True,
-                              w_extra=2 if mode == "mixed" else 0, extra=extra)
+                              w_extra=2 if mode == "mixed" else 0, extra=extra, world_init=_strict)
     script = [d.int(0, 7) for _ in range(d.int(4, 24))]
     return {"cfg": cfg, "acts": acts, "script": script, "meta": {"excluded": dict(world.excluded)}}
+
+
+def _strict(world):
+    # under delayed / reordered delivery, making a FOLDER inside a folder renamed in the same window is an open
+    # finding (KF-34) even when both sides are id-style; new files inside it are fine
+    world.strict_dirmove = True
 
 
 def in_domain(trace):
@@ -81,7 +88,7 @@ def in_domain(trace):
             return False
     acts = [a for a in trace["acts"] if a[0] not in ("walk", "inject")]
     sides = (0, 1) if "origin" not in trace["cfg"] else (trace["cfg"]["origin"],)
-    return envelope_ok(dict(trace, acts=acts), sides=sides)
+    return envelope_ok(dict(trace, acts=acts), sides=sides, world_init=_strict)
 
 
 class Mangler:
